@@ -8,7 +8,7 @@ RICH = ['&', '<', '>', '"', "'", ']]>', '--', '---', '-', 'é', '中', '\U0001F6
 WORDS = ['hello', 'world', 'a', 'b', 'x1', 'Text', '42', '3.5', 'multi word', 'AT&T', 'a<b', 'q"q', "it's", 'a[i[0]]>0', ']]>', 'a -> b', 'x <- y']
 COLOURS = ['red', 'blue', 'green', 'none', '#fff', 'rgb(1,2,3)']
 CLASSES = ['d-red', 'd-fill-blue', 'd-text-bigger', 'd-thick', 'd-dash', 'd-arrow', 'd-softshadow', 'd-text-bold', 'd-grid-5', 'd-stripe-10',
-           'mine', 'x-y', 'd-text-italic', 'd-surround', 'd-flow', 'd-text-pre']
+           'mine', 'x-y', 'd-text-italic', 'd-surround', 'd-flow', 'd-text-pre', 'R&D', 'a<b', 'q"q']
 CFG_KEYS = [('debug', [True, False]), ('add_metadata', [True, False]), ('theme', ['default', 'bold', 'fine', 'glass', 'light', 'dark']),
             ('border', [0, 5, 12]), ('scale', [0.5, 1.0, 2.5]), ('add_auto_styles', [True, False]),
             ('background', ['default', 'red', '#fff', 'a"b<c', "x'y&z"]),
@@ -94,7 +94,13 @@ def gen_doc(rng, root_attrs=None, text_heavy=False):
             parts.append('<rect xy="%d 0" wh="9 4" text="[$v%d]" data-v="${v%d}"/>' % (i * 11, i, i))
         elif r < 8:
             inner = ''.join(xmlgen_el(*shape(rng, 100 + i * 10 + j, ids)) for j in range(rng.range(1, 3)))
-            parts.append('<g%s>%s</g>' % (rng.choice(['', ' class="grp"', ' transform="translate(5 6)"', ' id="g%d"' % i]), inner))
+            if rng.chance(0.3):      # a class given through a variable, possibly one the element already carries
+                cl = rng.sample(CLASSES[:12], 2)
+                parts.append('<var hl%d="%s"/>' % (i, rng.choice([cl[0], cl[1], 'other'])))
+                nm = rng.choice(['g', 'g', 'defs', 'a'])
+                parts.append('<%s class="%s $hl%d %s">%s</%s>' % (nm, cl[0], i, cl[1], inner, nm))
+            else:
+                parts.append('<g%s>%s</g>' % (rng.choice(['', ' class="grp"', ' transform="translate(5 6)"', ' id="g%d"' % i]), inner))
         elif r < 9:
             parts.append('<!--' + rich_text(rng).replace('--', '- -').rstrip('-') + '-->')
         elif r < 10:
